@@ -38,6 +38,7 @@ ASSUMPTIONS = [
 MUST_REACH = {
     "enc_cases": 1, "dec_cases": 1, "dec_refused": 1, "dec_wrap_inputs": 1, "dec_trailing_zero_inputs": 1,
     "enc_runs_over_255": 1, "header_peeks": 1, "dec_between_cap": 1, "enc_repeat_after_mutation": 100, "enc_at_size_boundary": 12,
+    "dec_earlier_results_still_intact": 1000, "coder_calls_from_concurrent_threads": 5000,
 }
 
 
@@ -96,6 +97,50 @@ def check_encoder(ctx, s: bytes, tag):
         ctx.count("enc_runs_over_255")
 
 
+_PREV_DEC = []
+
+
+def threads_phase(ctx, rng):
+    """serialize() is documented as safe to call from several threads; the coder underneath must then be re-entrant: the same
+    inputs through 4 threads at once (tiny switch interval) give what they give one at a time."""
+    import sys
+    import threading
+    inputs = []
+    for _ in range(120):
+        n = rng.choice([0, 1, 5, 40, 300, 1200])
+        inputs.append(bytes(rng.choice([0, 0, 0, 1, 0xFF, rng.getrandbits(8)]) for _ in range(n)))
+    expected = [(bytes(UDPMessageSerializer.zero_code_compress(s)), s) for s in inputs]
+    problems = []
+
+    def worker(k):
+        order = list(range(len(inputs)))
+        for rep in range(ctx.pick(6, 40)):
+            for i in order[k::1] + order[:k]:
+                enc = bytes(UDPMessageSerializer.zero_code_compress(inputs[i]))
+                if enc != expected[i][0]:
+                    problems.append(("compress", i))
+                    return
+                if bytes(UDPMessageDeserializer.zero_code_expand(enc)) != inputs[i]:
+                    problems.append(("expand", i))
+                    return
+    old = sys.getswitchinterval()
+    sys.setswitchinterval(1e-6)
+    try:
+        ts = [threading.Thread(target=worker, args=(k * 7,)) for k in range(4)]
+        for t in ts:
+            t.start()
+        for t in ts:
+            t.join()
+    finally:
+        sys.setswitchinterval(old)
+    ctx.count("coder_calls_from_concurrent_threads", 4 * ctx.pick(6, 40) * len(inputs) * 2)
+    if problems:
+        what, i = problems[0]
+        ctx.violation("coder-not-reentrant:" + what, "the zero coder gave another result when called from several threads at once "
+                      "than it gives for the same input alone", {"input": inputs[i][:100], "input_len": len(inputs[i]),
+                                                                "threads": 4, "kind": "threads"})
+
+
 def check_decoder(ctx, d: bytes, tag):
     ctx.ev()
     ctx.count("dec_cases")
@@ -107,7 +152,16 @@ def check_decoder(ctx, d: bytes, tag):
         ctx.count("dec_trailing_zero_inputs")
     ref_len = wire.ref_expanded_len(d)
     try:
-        out = bytes(UDPMessageDeserializer.zero_code_expand(d))
+        res = UDPMessageDeserializer.zero_code_expand(d)
+        out = bytes(res)
+        # what an earlier call returned is the caller's: a later call must not have changed it
+        if _PREV_DEC and bytes(_PREV_DEC[0]) != _PREV_DEC[1]:
+            ctx.violation("decoder-result-changed-by-later-call", "the result of an earlier zero_code_expand() call changed when "
+                          "another input was expanded", {"earlier_input": _PREV_DEC[2][:100], "later_input": d[:100], "kind": "dec"})
+            _PREV_DEC.clear()
+            return
+        ctx.count("dec_earlier_results_still_intact", 1 if _PREV_DEC else 0)
+        _PREV_DEC[:] = [res, out, d]
         if tag == "rand" and 4 < len(d) < 60 and ctx.counters.get("sampled_dec", 0) < 2:
             ctx.count("sampled_dec")
             ctx.sample({"decoder_input": d, "decoder_output_len": len(out), "reference_len": ref_len}, force=True)
@@ -271,6 +325,7 @@ def run(ctx):
 
     # 6. header peek
     check_header_peek(ctx, rng)
+    threads_phase(ctx, rng)
 
 
 def replay(ctx, w):
